@@ -364,6 +364,14 @@ pub fn run(args: &[String]) {
             }
             for len in lens {
                 let (nch, nshm) = if n % 7 == 3 { (1, 1) } else { (0, 0) };
+                // the payload must not depend on how the transport splits it: every 5th length is also sent with a
+                // transient ENOBUFS that makes the sender shrink its packets
+                if n % 5 == 2 && len > 2000 {
+                    for f in [vec![1u8], vec![0, 1], vec![0, 0, 1]] {
+                        let sh = Shape { len, nch, nshm, faults: f };
+                        one_case(sys, &sh, &mut rng, format!("c01-{}-{}f", sys, n)).emit();
+                    }
+                }
                 let sh = Shape { len, nch, nshm, faults: vec![] };
                 one_case(sys, &sh, &mut rng, format!("c01-{}-{}", sys, n)).emit();
                 n += 1;
